@@ -49,7 +49,7 @@ def lifecycles(draw, tier):
             c["params"]["d"] = [0.0] * na
     ops = []
     for _ in range(draw(st.integers(1, 6))):
-        k = draw(st.sampled_from(["mutate_am", "mutate_ph", "reinit", "train", "train", "train_no_bases", "grad_slices", "poison_reinit", "rbm_init_zero", "rbm_init_random", "sibling_reinit_then_train"]))
+        k = draw(st.sampled_from(["mutate_am", "mutate_ph", "reinit", "train", "train", "train_no_bases", "grad_slices", "poison_reinit", "rbm_init_zero", "rbm_init_random", "sibling_reinit_then_train", "aborted_fit", "aborted_fit"]))
         op = {"op": k}
         if k.startswith("mutate"):
             op["delta"] = draw(st.floats(0.5, 2.0, allow_nan=False, width=64))
@@ -57,6 +57,7 @@ def lifecycles(draw, tier):
         if k == "train":
             op["opt"] = draw(st.sampled_from(OPTS))
             op["epochs"] = draw(st.integers(1, 2))
+            op["k"] = draw(st.sampled_from([1, 1, 1, 2, 20, 25]))        # time axis: occasionally many Gibbs steps per update
         ops.append(op)
     c["ops"] = ops
     return c
@@ -220,6 +221,13 @@ def check(c):
             if t == "density":
                 aux0 = torch.zeros_like(state.rbm_ph.aux_bias)
             labels.append(k)
+        elif k == "aborted_fit":
+            # after an exception: a training run aborted by a user callback (caught); the ops that follow (reinitialise, train, mutate ...) must
+            # behave as documented
+            gen.abort_a_fit(state, data, bases if has_ph else None, hook=["on_batch_end", "on_epoch_end", "on_train_start"][len(labels) % 3])
+            if t == "density":
+                aux0 = state.rbm_ph.aux_bias.detach().clone()
+            labels.append(k)
         elif k == "sibling_reinit_then_train":
             # shared object: a SECOND state is built on the same user module; this state trains, the sibling reinitialises (the module gets new
             # parameter objects), this state trains again: the second training must move the module's CURRENT parameters
@@ -258,7 +266,7 @@ def check(c):
                     require(bool((s.rbm_ph.aux_bias == 0).all()), "phase-aux-bias-moved",
                             f"the phase network's auxiliary bias left zero during training with {op['opt']} (step {steps[0]})", value=s.rbm_ph.aux_bias.tolist())
             kw = {"input_bases": bases} if has_ph else {}
-            state.fit(data, epochs=op["epochs"], pos_batch_size=2, lr=0.05, optimizer=oc, optimizer_args=oa, callbacks=[LambdaCallback(on_batch_end=on_be)], **kw)
+            state.fit(data, epochs=op["epochs"], pos_batch_size=2, lr=0.05, k=op.get("k", 1), optimizer=oc, optimizer_args=oa, callbacks=[LambdaCallback(on_batch_end=on_be)], **kw)
             if diverged[0]:
                 state.stop_training = False
                 return {"nontrivial": False, "excluded": 1, "labels": sorted(set(labels + ["diverged"]))}
